@@ -246,7 +246,7 @@ def roundtrip(chk: Check, repo: Repo, ev: SerEval, ci: ClassInfo, kind: str) -> 
             problems: list[str] = []
             lossy = [x for x in r.notes if x.startswith("LOSSY")]
             same(ev, r, ci.name, r.__dict__["orig"], got, problems)
-            chk.ob("parsed-equals-serialised", tk.site(), not problems and not lossy, f"{desc}: " + ("every attribute parses back to the value that was serialised" if not problems and not lossy else "; ".join(lossy + problems)), key=(f"r∘w|{ci.name}|{vdesc}|{ldesc}" if not problems and not lossy else (f"padded-field|{ci.name}|" + ";".join(sorted({p.split('`')[1].split('.')[-1] for p in problems if '`' in p})) if lossy else f"r∘w|{ci.name}|{vdesc}|" + ";".join(sorted(p.split('`')[1] if '`' in p else p[:40] for p in problems)))))
+            chk.ob("parsed-equals-serialised", tk.site(), not problems and not lossy, f"{desc}: " + ("every attribute parses back to the value that was serialised" if not problems and not lossy else "; ".join(lossy + problems)), key=(f"r∘w|{ci.name}|{vdesc}|{ldesc}" if not problems and not lossy else ((("padded-field" if all(x.startswith("LOSSY:padded ") for x in lossy) else "cut-field") + f"|{ci.name}|") + ";".join(sorted({p.split('`')[1].split('.')[-1] for p in problems if '`' in p})) if lossy else f"r∘w|{ci.name}|{vdesc}|" + ";".join(sorted(p.split('`')[1] if '`' in p else p[:40] for p in problems)))))
     return n
 
 
